@@ -128,9 +128,22 @@ impl Op {
             let inverted = args
                 .get("inv")
                 .is_some_and(|v| v.is_empty() || v.to_lowercase() == "true");
+            // The directional modifiers belong to the invocation as a whole,
+            // not to the individual steps of the macro body
+            let omitted = |key: &str| {
+                args.get(key)
+                    .is_some_and(|v| v.is_empty() || v.to_lowercase() == "true")
+            };
             let mut next_param = parameters.next(def);
             next_param.definition = macro_definition;
-            return Op::op(next_param, ctx)?.handle_inversion(inverted);
+            let mut op = Op::op(next_param, ctx)?.handle_inversion(inverted)?;
+            if omitted("omit_fwd") {
+                op.params.boolean.insert("omit_fwd");
+            }
+            if omitted("omit_inv") {
+                op.params.boolean.insert("omit_inv");
+            }
+            return Ok(op);
         }
 
         // A built in operator?
